@@ -1108,7 +1108,7 @@ func (g *gen) text() string {
 // contains neither '=' nor '/'.
 func (g *gen) post(mayBeEmpty bool) string {
 	if mayBeEmpty {
-		switch g.pct("postmode")/25 {
+		switch g.pct("postmode") / 25 {
 		case 0:
 			return ""
 		case 1:
@@ -1132,7 +1132,7 @@ func (g *gen) frag() string { return pick(g, "frag", fragments) }
 func (g *gen) kv(path string) {
 	rt := g.rt
 	l := Line{T: tKV, E: g.eol(), Eq: true}
-	form := g.pct("form")/5
+	form := g.pct("form") / 5
 	switch {
 	case form == 0:
 		l.N = "" // "=v": listed as a line, defines no key
